@@ -28,6 +28,7 @@ Suppressions:
 """
 
 import ast
+import re
 from pathlib import Path
 
 from src.core.base import BaseLintContext, MultiLanguageLintRule
@@ -328,9 +329,20 @@ class MethodPropertyRule(MultiLanguageLintRule):  # thailint: ignore[srp,dry]
 
         line_lower = line_text.lower()
 
-        # Check for thailint: ignore[method-property]
-        if "thailint:" in line_lower and "ignore" in line_lower:
+        # thailint: ignore[...] / ignore-next-line / ignore-start..end / ignore-file, decided by
+        # the shared directive engine so that only directives naming this rule apply
+        from src.linter_config.ignore import get_ignore_parser
+
+        if get_ignore_parser().should_ignore_violation(violation, context.file_content or ""):
             return True
+
+        # Lenient same-line form ("#   thailint:   ignore - reason"); a bracketed rule list
+        # must name this rule
+        if "thailint:" in line_lower and "ignore" in line_lower:
+            from src.linter_config.rule_matcher import check_bracket_rules
+
+            bracket = re.search(r"ignore\[([^\]]+)\]", line_text, re.IGNORECASE)
+            return check_bracket_rules(bracket.group(1), violation.rule_id) if bracket else True
 
         # Check for noqa
         if "# noqa" in line_lower:
